@@ -180,6 +180,24 @@ def run(chk, scratch):
                     ex = [(s, s + 120)]
                 w.make_read(t.chrom, ex, name=name, flag=(0 if j == 0 else 256), mapq=60,
                             truth={"multimap": True, "class": "mx-" + kind})
+        # reads whose best alignments are full-length copies of two DIFFERENT isoforms of ONE gene (number of genes != number of isoforms):
+        # (a) primary on the first isoform (wins alone), (b) primary unspliced in a gene-free stretch, both isoform copies secondary (tie)
+        n_iso_pairs = 0
+        for g in w.genes:
+            ts = [t for t in g.transcripts if len(t.exons) >= 3]
+            if len(ts) >= 2 and ts[0].introns != ts[1].introns and n_iso_pairs < 4:
+                free = world2._free_pos(w, g.chrom, 1500)
+                for k in range(4):
+                    name = "mmiso%02d_%d" % (n_iso_pairs, k)
+                    if k >= 2 and free + 900 < w.chrom_len(g.chrom):
+                        w.make_read(g.chrom, [(free + 40 * k, free + 700)], name=name, flag=0, mapq=60, truth={"multimap": True, "class": "mm-two-isoforms-of-one-gene"})
+                        first = 256
+                    else:
+                        first = 0
+                    for j, t in enumerate(ts[:2]):
+                        w.make_read(t.chrom, list(t.exons), name=name, flag=(first if j == 0 else 256), mapq=60,
+                                    truth={"multimap": True, "class": "mm-two-isoforms-of-one-gene"})
+                n_iso_pairs += 1
         pipeline.write_world(w, d0)
         variants = [("v0", d0, [])]
         dv = os.path.join(scratch, "w%d_v1" % wi)
